@@ -59,6 +59,8 @@ impl<T> InnerQueue<T> {
             Err(TryRecvError::Disconnected) => return Err(RecvTimeoutError::Disconnected),
         }
 
+        #[cfg(may_verif)]
+        crate::verif::pt("mpmc.recv.wait", crate::verif::addr(self), 0, 0);
         match dur {
             None => self.sem.wait(),
             Some(t) => {
@@ -80,6 +82,8 @@ impl<T> InnerQueue<T> {
     }
 
     pub fn try_recv(&self) -> Result<T, TryRecvError> {
+        #[cfg(may_verif)]
+        crate::verif::pt("mpmc.try.wait", crate::verif::addr(self), 0, 0);
         if !self.sem.try_wait() {
             #[cfg(may_verif)]
             crate::verif::pt("mpmc.try.load_tx", crate::verif::addr(self), 0, 0);
